@@ -42,10 +42,9 @@ Fixpoint ops_ok (s : state) (ops : list op) : bool :=
   | o :: ops' => op_ok s o && ops_ok (fst (step s o)) ops'
   end.
 
-(* finding classes = the tag of the first deviating branch the model takes:
-   1 writable lost, 2 for-in ignores shadowing, 3 getter pair under a data mode (Go panic),
-   4 accessor with neither getter nor setter reported without get/set, 5 defineProperties
-   converts and defines entry by entry, 6 for-in reads the order array shifted by a delete *)
+(* finding classes = the tag of the first open deviation the model meets:
+   2 for-in ignores shadowing, 5 defineProperties converts and defines entry by entry
+   (1, 3, 4, 6 were repaired in /repo and are no longer accepted) *)
 Fixpoint fork_ok (sa sb : state) (ops : list (bool * op)) : bool :=
   match ops with
   | [] => true
@@ -55,34 +54,13 @@ Fixpoint fork_ok (sa sb : state) (ops : list (bool * op)) : bool :=
       op_ok s o && fork_ok (if side then sa else s') (if side then s' else sb) ops'
   end.
 
-Definition bools : list bool := [false; true].
-Definition variants : list fixes :=
-  flat_map (fun a => flat_map (fun b => flat_map (fun c => map (fun d => mkFx a b c d) bools) bools) bools) bools.
-
-(* the model as the tree stands first; if the observation differs, the model with any subset of
-   the proposed repairs applied (each replaces one recorded deviation by the ES5 behaviour) *)
-Fixpoint first_match (obs : list (list Z)) (model : fixes -> list (list Z) * Z) (vs : list fixes)
-  : option (list (list Z) * Z) :=
-  match vs with
-  | [] => None
-  | fx :: vs' => let r := model fx in
-                 if llz_eqb obs (fst r) then Some r else first_match obs model vs'
-  end.
-
-Definition judge_with (obs : list (list Z)) (model : fixes -> list (list Z) * Z) (spec : list (list Z)) : Z * Z :=
-  let '(m, tag) := match first_match obs model variants with
-                   | Some r => r
-                   | None => model nofix
-                   end in
-  judge llz_eqb obs m spec tag.
-
 Definition verdict (c : case) : Z * Z :=
   match c with
   | CHist ops obs =>
       if negb (ops_ok init ops) then declined
-      else judge_with obs (fun fx => mrun fx minit ops) (run init ops)
+      else let '(m, tag) := mrun minit ops in judge llz_eqb obs m (run init ops) tag
   | CFork prefix ops obs =>
       let s := exec init prefix in
       if negb (ops_ok init prefix && fork_ok s s ops) then declined
-      else judge_with obs (fun fx => mrun_fork fx prefix ops) (run_fork prefix ops)
+      else let '(m, tag) := mrun_fork prefix ops in judge llz_eqb obs m (run_fork prefix ops) tag
   end.
